@@ -12,7 +12,6 @@ import (
 	"os"
 	"time"
 
-	"github.com/fatedier/frp/pkg/util/log"
 	netpkg "github.com/fatedier/frp/pkg/util/net"
 
 	"verifharness/hx"
@@ -23,7 +22,7 @@ func init() { drivers["httpauth"] = runHTTPAuth }
 const corrImports = "From FRP Require Import Corr.C07.\nOpen Scope Z_scope.\n"
 
 func runHTTPAuth(cfg *hx.RunCfg) error {
-	log.InitLogger("/dev/null", "error", 0, true)
+	hx.Quiet()
 	r := &run{cfg: cfg, sym: newSymtab(), dist: map[string]int{}, seenF: map[string]bool{}, nontr: map[string]bool{}, notes: map[string]any{}}
 	g := hx.NewGen(cfg.Seed)
 	grid := credGrid()
@@ -71,6 +70,10 @@ func runHTTPAuth(cfg *hx.RunCfg) error {
 			"Definition NMUX_FORWARD_PROTECTED := Eval vm_compute in count_if is_mux_forward_protected cases.\nPrint NMUX_FORWARD_PROTECTED.\n" +
 			"Definition NGRP_REFUSED_JOIN := Eval vm_compute in count_if is_grp_refused_join cases.\nPrint NGRP_REFUSED_JOIN.\n" +
 			"Definition NGRP_PROTECTED_DELIVERY := Eval vm_compute in count_if is_grp_protected_delivery cases.\nPrint NGRP_PROTECTED_DELIVERY.\n" +
+			"Definition NSYS_SUBDOMAIN_REFUSED := Eval vm_compute in count_if is_sys_subdomain_refused cases.\nPrint NSYS_SUBDOMAIN_REFUSED.\n" +
+			"Definition NSYS_SUBDOMAIN_FORWARDED := Eval vm_compute in count_if is_sys_subdomain_forwarded cases.\nPrint NSYS_SUBDOMAIN_FORWARDED.\n" +
+			"Definition NHGRP := Eval vm_compute in count_if is_hgrp_case cases.\nPrint NHGRP.\n" +
+			"Definition NHGRP_FINDING_FC07C := Eval vm_compute in count_if is_hgrp_finding cases.\nPrint NHGRP_FINDING_FC07C.\n" +
 			"Definition NWEB_UNAUTH := Eval vm_compute in count_if is_web_unauth cases.\nPrint NWEB_UNAUTH.\n" +
 			"Definition NWEB_PUBLIC := Eval vm_compute in count_if is_web_public cases.\nPrint NWEB_PUBLIC.\n",
 	}
